@@ -277,7 +277,7 @@ class FSpec:
     """One filter of a rig.
     plan keys (all optional):
       construct: 'raise'                                   invalid configuration -> ValueError in the constructor
-      init:      'raise_pre' | 'raise_mid' | 'raise_post' | 'exit_post'
+      init:      'raise_pre' | 'raise_mid' | 'raise_post' | 'exit_post' | 'exit_pre'
                      pre  = invalid source address (ValueError in Filter.init before the MQ exists)
                      mid  = second output address already bound (the MQ constructor fails half way)
                      post = subclass init() raises / calls exit() after super().init()
@@ -442,6 +442,8 @@ class Rig:
             def init(self_, config):
                 ob.filter = self_
                 note('init')
+                if plan.get('init') == 'exit_pre':       # a subclass that exits before Filter.init() has created anything
+                    fault('exit', self_, 'init')
                 super().init(config)
                 k = plan.get('init')
                 if k == 'raise_post':
@@ -699,7 +701,7 @@ class Scenario:
             elif st == 'init' and ch != 'ok':
                 if not typeerror:
                     planF['init'] = ch
-                    self.injected.append(('init', 'exit' if ch == 'exit_post' else 'raise'))
+                    self.injected.append(('init', 'exit' if ch in ('exit_post', 'exit_pre') else 'raise'))
             elif st in ('setup', 'shutdown', 'fini') and ch != 'ok':
                 planF[st] = ch
                 self.injected.append((st, ch))
@@ -1190,7 +1192,7 @@ def judge_lineage(sc: Scenario, o, events):
     kinds = [e[0] for e in events]
     F = o['F']
     if not kinds:
-        if 'init' in F['calls']:
+        if 'init' in F['calls'] and ('init', 'exit_pre') not in [tuple(l)[:2] for l in sc.life]:
             v.append(('C18_Wellformed', 'the run reached init() but emitted no lineage event at all', {'kind': 'no_start'}))
         return v
     if kinds[0] != 'START' or kinds.count('START') != 1:
